@@ -175,6 +175,9 @@ def _eval_guard(f, g, case) -> bool:
         if isinstance(t, ast.BoolOp):
             vs = [ev(v) for v in t.values]
             return all(vs) if isinstance(t.op, ast.And) else any(vs)
+        if isinstance(t, ast.Compare) and len(t.ops) == 1 and isinstance(t.ops[0], (ast.IsNot, ast.NotIn)):
+            pos = ast.Compare(left=t.left, ops=[ast.Is() if isinstance(t.ops[0], ast.IsNot) else ast.In()], comparators=t.comparators)
+            return not ev(pos)
         txt = u(t)
         if txt == "block.isTerminal()":
             return False  # the abstract cases are non-terminal blocks
